@@ -61,7 +61,17 @@ def unescape(s):
     return s.replace('\\"', '"').replace('\\\\', '\\')
 
 
-def tlc(cfg, module, scratch, overrides=None, simulate=None, workers=None, timeout=3600, coverage=False, deadlock=None, extra=None, extra_files=None):
+def tlc(*a, **k):
+    """tlc_once; a TLC killed from outside (negative rc: OOM killer, a foreign pkill) is started again, twice at most"""
+    for attempt in range(3):
+        r = tlc_once(*a, **k)
+        if r['rc'] >= 0:
+            break
+        time.sleep(2 + 3 * attempt)
+    return r
+
+
+def tlc_once(cfg, module, scratch, overrides=None, simulate=None, workers=None, timeout=3600, coverage=False, deadlock=None, extra=None, extra_files=None):
     """Run TLC; returns dict(rc, generated, distinct, violated, error, universe, histories, log).
     cfg is a file under spec/cfg; overrides replace 'NAME = value' lines."""
     work = tempfile.mkdtemp(prefix='tlc-', dir=scratch.dir)
@@ -88,10 +98,16 @@ def tlc(cfg, module, scratch, overrides=None, simulate=None, workers=None, timeo
     out = os.path.join(work, 'out.txt')
     t0 = time.time()
     with open(out, 'w') as fo:
+        # own session: on timeout only this TLC (wrapper script and JVM) is killed, never a sibling check's
+        pr = subprocess.Popen(cmd, cwd=work, stdout=fo, stderr=subprocess.STDOUT, start_new_session=True)
         try:
-            rc = subprocess.run(cmd, cwd=work, stdout=fo, stderr=subprocess.STDOUT, timeout=timeout).returncode
+            rc = pr.wait(timeout=timeout)
         except subprocess.TimeoutExpired:
-            subprocess.run(['pkill', '-f', 'tlc2.TL[C]'], stdout=subprocess.DEVNULL, stderr=subprocess.DEVNULL)
+            try:
+                os.killpg(pr.pid, 9)
+            except OSError:
+                pass
+            pr.wait()
             rc = 124
     univ, hists, rest = None, [], []
     with open(out, errors='replace') as fi:
